@@ -383,7 +383,9 @@ def merge_and_report(prop, meta, tier, seed, versions, missing, nshards, results
     }
     cov.update(extra_merge)
     cov.update(post or {})
-    if level == "model_checking":
+    if level == "model_checking" and states >= 1 and transitions >= 1:
+        # (a run that stops at its first violations may not have completed any state;
+        # then only the exploration-style counts are reported)
         cov["states"] = int(states)
         cov["transitions"] = int(transitions)
         cov["traces_validated_against_impl"] = int(traces)
